@@ -26,6 +26,7 @@ class HarnessResult:
         self.verif_time = 0.0
         self.log = ""
         self.unwind_fail = False
+        self.info = []
         self.playback = None    # concrete playback test source, if requested
 
     def failed_desc(self):
@@ -40,6 +41,11 @@ def parse_output(name, out, rc):
         r.nchecks += 1
         if ".cover." in cid:
             r.covers[desc + " #" + cid.rsplit(".", 1)[1]] = status
+            continue
+        if status == "FAILURE" and desc.startswith("NaN on "):
+            # CBMC --nan-check: informational (a NaN was produced by an arithmetic operation); not a panic,
+            # not reproducible natively. Harness assertions state the NaN-freedom that a property demands.
+            r.info.append((cid, desc, loc))
             continue
         if status == "FAILURE":
             if "unwinding assertion" in desc or ".unwind." in cid:
@@ -59,6 +65,8 @@ def parse_output(name, out, rc):
             if unsupported:
                 r.status = "error"
                 r.reason = "unsupported construct reachable: " + unsupported[0][1]
+        elif r.info and re.search(r"\*\* (\d+) of \d+ failed", out) and int(re.search(r"\*\* (\d+) of \d+ failed", out).group(1)) == len(r.info):
+            r.status = "pass"   # only informational NaN checks failed
         else:
             r.status = "error"
             r.reason = "FAILED without failed checks (CBMC error / OOM / timeout)"
